@@ -473,9 +473,13 @@ def main():
     pid = a[0]
     tier = os.environ.get("VERIF_TIER", "quick")
     rp = None
+    seed = int(os.environ.get("VERIF_SEED", "1"))
     i = 1
     while i < len(a):
-        if a[i] == "--tier":
+        if a[i] == "--seed":
+            seed = int(a[i + 1])
+            i += 2
+        elif a[i] == "--tier":
             tier = a[i + 1]
             i += 2
         elif a[i] == "--replay":
@@ -483,7 +487,6 @@ def main():
             i += 2
         else:
             i += 1
-    seed = int(os.environ.get("VERIF_SEED", "1"))
     if rp:
         return replay(pid, rp)
     return check(pid, tier, seed)
